@@ -32,7 +32,7 @@ def _worker(conn, modname):
     if os.environ.get('VERIF_COVER'):
         # development aid (tools/coverage_report.sh): which lines of the repository do the checks execute at all
         import coverage
-        cov = coverage.Coverage(data_file=os.path.join(os.environ['VERIF_COVER'], 'cov'), data_suffix=True, source=[env.REPO], config_file=False)
+        cov = coverage.Coverage(data_file=os.path.join(os.environ['VERIF_COVER'], 'cov'), data_suffix=True, source=[env.REPO], config_file=False, branch=bool(os.environ.get('VERIF_COVER_BRANCH')))
         cov.start()
     try:
         _worker_loop(conn, modname)
